@@ -25,7 +25,7 @@ pub const SPEC: PropSpec = PropSpec {
     required: &["spans.Start", "spans.End", "spans.Empty", "spans.Text", "spans.CData", "spans.Comment", "spans.Decl", "spans.PI", "spans.DocType", "inputs_with_bom", "doctype_spellings_nonstandard", "written_bytes_compared", "buffered_runs"],
     run,
     replay,
-    thorough_layers: &[],
+    thorough_layers: &[("fuzz", 45)],
     quick_layers: &[],
     post: None,
 };
@@ -357,6 +357,9 @@ fn run(ctx: &mut Ctx) {
 }
 
 fn replay(case: &Value, _ctx: &mut Ctx) -> Option<String> {
+    if let Some(h) = case.get("fuzz").and_then(|v| v.as_str()) {
+        return fuzz_entry(&crate::ctx::unhex(h)).err();
+    }
     let input = input_from_json(&case["input"]);
     let mut loc = Local {
         spans: [0; 10],
@@ -374,4 +377,14 @@ fn replay(case: &Value, _ctx: &mut Ctx) -> Option<String> {
             check_buffered(&input, cuts, &mut loc).err()
         }
     }
+}
+
+/// libFuzzer entry: the whole input is the document (neutral configuration); byte parity picks the source
+pub fn fuzz_entry(data: &[u8]) -> Result<(), String> {
+    let mut loc = Local { spans: [0; 10], zero_spans: 0, bom_inputs: 0, doctype_odd: 0, written: 0, buffered: 0, stopped_at_err: 0 };
+    check_slice(data, &mut loc)?;
+    if data.len() > 1 && !matches!(data[0], 0xEF | 0xFE | 0xFF | 0) {
+        check_buffered(data, crate::sources::cuts_for_piece(data.len(), 1 + (data.len() % 3), 0), &mut loc)?;
+    }
+    Ok(())
 }
